@@ -526,6 +526,10 @@ class LBFGSB:
         )
         model.update(np.arange(initial_model.ndims), final_vector)
 
+        # After an abnormal exit (e.g. an abandoned line search) scipy restores the
+        # last accepted iterate but hands back the objective of the rejected trial
+        # point: report the objective of the solution that is actually returned
+        final_f = lbfgsb_func_grad(final_vector)[0]
         lbfgsb_info["final_f"] = final_f
         lbfgsb_info["callback"] = vars(monitor)
         # Unregister monitor in case of reuse
